@@ -90,6 +90,36 @@ SYNC_PATTERNS = [0x755FD7DF75F7, 0xDFF57D75DF5D, 0x7F7D5DD57DFD, 0xD5D7F77FD757,
                  0x7DFFD5F55D5F, 0xD7557F5FF7F5, 0xDD7FF5D757DD]
 
 
+# ----------------------------------------------------------------------------------------------------------------------
+# "Dedicated codes": identifier elements whose members stand for an explicit value that can also be carried free-form
+# elsewhere in the same PDU when the identifier is at its escape member.  identifier element -> {member value: [explicit
+# values it stands for]}.  Used by C03 to put exactly those values (and their neighbours) into the free-form field while the
+# identifier is at the escape: the PDU must then round-trip as built (same length, same fields) - the library must not
+# silently re-code it.
+#   TS 102 361-3 §7.2.4.3 / §7.2.4.4 (SPID / DPID): 0000001 = UTF-16BE text message, UDP port 5016; 0000010 = location
+#   interface protocol, UDP port 5017; 0000000 = port number follows in an extended header (escape).
+#   TS 102 361-3 §7.2.4.1 / §7.2.4.2 (SAID / DAID): 0000 radio network, 0001 USB/Ethernet interface network; the compressed
+#   header has no explicit address field (addresses are the LLIDs of the data header), so there is nothing to collide with.
+DEDICATED = {
+    "UDPPortIdentifier": {1: [5016], 2: [5017]},
+    "IPAddressIdentifier": {},
+}
+ESCAPE = {"UDPPortIdentifier": 0}
+# further UDP ports in use by DMR applications (no identifier of their own): decoys next to the dedicated values
+EXPLICIT_DECOYS = {
+    "UDPPortIdentifier": [3002, 3003, 3004, 3005, 3006, 3007, 3009, 4001, 4004, 4005, 4007, 4008, 4069, 30001, 30003, 30007, 50000, 62031],
+}
+
+
+def dedicated_values(elem: str, neighbours: bool = True):
+    """explicit values the members of `elem` stand for (with +-1 neighbours), in ascending order"""
+    vals = set()
+    for lst in DEDICATED.get(elem, {}).values():
+        for x in lst:
+            vals.update((x - 1, x, x + 1) if neighbours else (x,))
+    return sorted(v for v in vals if v >= 0)
+
+
 def fold_target(elem: str, value: int):
     """target value of the reserved class `value` belongs to, or None when the standard has no reserved member for it"""
     for lo, hi, tgt in ELEMENTS[elem]["fold"]:
